@@ -181,22 +181,34 @@ pub fn cases(mix: &str, n: usize, seed: u64) -> Vec<Case> {
         }
     }
     if want("text") {
-        // C01: every ASCII code point at the start / middle / end of a run and alone, at
-        // every nesting position
-        let wrappers: &[(&str, &str)] = &[
-            ("", ""),
-            ("@if a {", "}"),
-            ("@if a {x} else {", "}"),
-            ("@for x in y {", "}"),
-            ("@match m { Some(x) => {", "} }"),
-            ("@:c({", "})"),
-            ("@if a {@for b in c {", "}}"),
-        ];
+        // C01: every ASCII code point at the start / middle / end of a run and alone, at every
+        // nesting position, directly after the declaration and after other text; each case carries
+        // the documented tree (text is itself; only the white space / comment run directly after
+        // the declaration is dropped)
+        use crate::gen::{Arg, Cond, Else, Node, Pat, Tpl};
+        let cond = || Cond::Logic { neg: false, first: "a".into(), rest: vec![] };
+        let wrap = |wi: usize, inner: Vec<Node>| -> Vec<Node> {
+            match wi {
+                0 => inner,
+                1 => vec![Node::Text(b"X".to_vec()), Node::If { cond: cond(), body: inner, els: Else::None }],
+                2 => vec![Node::Text(b"X".to_vec()), Node::If { cond: cond(), body: vec![Node::Text(b"x".to_vec())], els: Else::Block(inner) }],
+                3 => vec![Node::Text(b"X".to_vec()), Node::For { pat: Pat::Name("x".into()), iter: "y".into(), body: inner }],
+                4 => vec![Node::Text(b"X".to_vec()), Node::Match { expr: "m".into(), arms: vec![("Some(x)".into(), inner)] }],
+                5 => vec![Node::Text(b"X".to_vec()), Node::Call { name: "c".into(), args: vec![Arg::Body(inner)] }],
+                _ => vec![Node::Text(b"X".to_vec()), Node::If { cond: cond(), body: vec![Node::For { pat: Pat::Name("b".into()), iter: "c".into(), body: inner }], els: Else::None }],
+            }
+        };
+        let mut push_case = |body: Vec<Node>, out: &mut Vec<Case>| {
+            let t = Tpl { uses: vec![], lifetimes: vec![], params: vec![], body };
+            let src = crate::gen::print_tpl(&t, &mut Layout::Canonical);
+            out.push(Case { kind: "text", src, intended: Some(crate::gen::intended_dump(&t)), pair_of: None, decl: None });
+        };
         for b in 0u8..128 {
             if b == b'@' || b == b'{' || b == b'}' {
                 continue;
             }
-            for (wi, (pre, post)) in wrappers.iter().enumerate() {
+            let ws = b == b' ' || b == b'\t' || b == b'\n' || b == b'\r';
+            for wi in 0..7usize {
                 for shape in 0..4 {
                     // keep the quick tier small: all shapes at top level, one shape nested
                     if wi > 0 && shape != (b as usize + wi) % 4 {
@@ -208,34 +220,47 @@ pub fn cases(mix: &str, n: usize, seed: u64) -> Vec<Case> {
                         2 => vec![b'm', b, b'n'],
                         _ => vec![b'm', b'n', b],
                     };
-                    let mut s = b"@()\nX".to_vec();
-                    s.extend(pre.as_bytes());
-                    s.extend(&t);
-                    s.extend(post.as_bytes());
-                    out.push(Case { kind: "text", src: s, intended: None, pair_of: None, decl: None });
+                    // directly after the declaration a leading white-space run is dropped by design
+                    if wi == 0 && ws && shape < 2 {
+                        push_case(vec![Node::EscAt, Node::Text(t)], &mut out);
+                    } else {
+                        push_case(wrap(wi, vec![Node::Text(t)]), &mut out);
+                    }
                 }
             }
         }
         let mut r = Rng::new(seed, "text");
         for _ in 0..n / 4 {
-            let mut s = b"@()\nX".to_vec();
-            let (pre, post) = r.pick(wrappers);
-            s.extend(pre.as_bytes());
+            let mut inner: Vec<Node> = Vec::new();
             for _ in 0..r.range(1, 4) {
-                match r.below(6) {
-                    0 => s.extend(b"@@"),
-                    1 => s.extend(b"@{"),
-                    2 => s.extend(b"@}"),
-                    3 => {
-                        s.extend(b"@*");
-                        s.extend(r.pick(&[" c ", "*", "**", " * ", "x**", "* *", " \u{e9} ", "{", "@", ""]).as_bytes());
-                        s.extend(b"*@");
+                let node = match r.below(6) {
+                    0 => Node::EscAt,
+                    1 => Node::EscOpen,
+                    2 => Node::EscClose,
+                    3 => Node::Comment(r.pick(&[" c ", "*", "**", " * ", "x**", "* *", " \u{e9} ", "{", "@", ""]).as_bytes().to_vec()),
+                    _ => {
+                        if matches!(inner.last(), Some(Node::Text(_))) {
+                            continue;
+                        }
+                        Node::Text(gen::rand_text(&mut r))
                     }
-                    _ => s.extend(gen::rand_text(&mut r)),
+                };
+                inner.push(node);
+            }
+            let wi = r.below(7);
+            let mut body = wrap(wi, inner);
+            if wi == 0 {
+                // the leading run of white space and comments is dropped by design
+                while matches!(body.first(), Some(Node::Comment(_))) {
+                    body.remove(0);
+                }
+                if let Some(Node::Text(t)) = body.first_mut() {
+                    if t.first().map_or(false, |c| b" \t\r\n".contains(c)) {
+                        t.insert(0, b'x');
+                    }
                 }
             }
-            s.extend(post.as_bytes());
-            out.push(Case { kind: "text", src: s, intended: None, pair_of: None, decl: None });
+            push_case(body, &mut out);
         }
     }
     if want("decl") {
